@@ -24,6 +24,25 @@ add("C01",
     "Trusts Python's comparison operators and float division as the reference; int-dtype "
     "scores are small integers; code under test is imported from /repo's working tree.")
 
+add("C02",
+    "property-based testing: Hypothesis-generated score sets/targets; round-trip oracle through "
+    "the object's own metric, coherence relations between the three methods, monotonicity",
+    "Exploration: for every generated (scores, easy counts, config, metric, method, target) the "
+    "metric at the returned threshold is compared with the clipped target to within exactly one "
+    "sample (bracketing at +-3 ulps for ties); lower/higher/linear coherence and monotonicity in "
+    "r are asserted. Absence of violations is not proved.",
+    "|score| <= 1e6; near-ties (<16 ulps, unequal) skipped and counted; the object's own rate "
+    "methods are trusted here (they are checked by C01).")
+
+add("C03",
+    "property-based testing + exhaustive enumeration of class/easy sizes; exact-equality oracle "
+    "against the brute-force achievable extreme of the counting reference",
+    "Exploration: extreme targets (r<=0, r>=1) on generated score sets for 6 metrics x 4 configs "
+    "x 3 methods, exact float equality with the brute-force min/max of the metric; all size pairs "
+    "(N<=300, easy<=60) enumerated in the thorough tier because the failure modes depend on "
+    "sizes only.",
+    "|score| <= 1e6; brute-force extreme is cross-checked against the closed-form range.")
+
 NOT_YET = {}
 
 
